@@ -108,6 +108,18 @@ def bool_options(fn):
     return out
 
 
+def numeric_options(fn):
+    """names of the parameters of a function whose default is a literal number (not a bool)"""
+    a = fn.args
+    pos = a.posonlyargs + a.args
+    out = []
+    for arg, d in list(zip(pos[len(pos) - len(a.defaults):], a.defaults)) + list(zip(a.kwonlyargs, a.kw_defaults)):
+        if d is not None and isinstance(d, ast.Constant) and isinstance(d.value, (int, float)) \
+                and not isinstance(d.value, bool):
+            out.append(arg.arg)
+    return out
+
+
 def assigns_attr(repo, ci, attr):
     """does any __init__ along the MRO assign self.<attr> ?"""
     for k in ci.mro:
@@ -282,6 +294,7 @@ def check(run, repo):
                      {'T': arrT, 'P': D.sym('P'), 'S_elements': None}, ['J/mol/K', 'kJ/kg/K'], molw, counter)
 
     # ---- (d) reactions ------------------------------------------------------------
+    n_numopts = 0
     for cname, qual in (('Reaction', 'pmutt.reaction.Reaction'), ('ChemkinReaction', 'pmutt.reaction.ChemkinReaction'),
                         ('SurfaceReaction', 'pmutt.omkm.reaction.SurfaceReaction')):
         ci = repo.cls(qual)
@@ -300,12 +313,20 @@ def check(run, repo):
                     variants = [dict(v, rev=r) for v in variants for r in (False, True)]
                 if 'act' in names:
                     variants = [dict(v, act=a) for v in variants for a in (False, True)]
+            # every numeric option the wrapper shares with its twin is also given a value that is not its default (a
+            # symbol): an option that is not handed on leaves the twin at its default and the two forms differ
+            tfn = repo.find_method(ci, tname)[1]
+            for opt in numeric_options(fn):
+                if opt in params(tfn)[0] and opt not in ('T', 'P'):
+                    n_numopts += 1
+                    variants = variants + [dict(v, **{opt: D.sym('opt.' + opt)}) for v in variants]
             for var in variants:
                 avail = dict({'T': D.sym('T'), 'P': D.sym('P'), 'include_ZPE': True}, **var)
                 lab = cname + ('[%s]' % ','.join('%s=%s' % kv for kv in sorted(var.items())) if var else '')
                 run_pair(run, I, rxn, lab, wname, tname, q, owner, fn, avail,
                          unit_variants(rkeys, thorough and not var.get('rev') and not var.get('act'), per_mass=False),
                          None, counter)
+    run.floor('numeric options shared by a reaction wrapper and its twin', n_numopts, 3)
     # ---- (e) BEP --------------------------------------------------------------------
     I = Interp(repo)
     D = I.D
